@@ -135,8 +135,15 @@ type ufApp struct {
 }
 
 func (w *W) unsupported(msg string) {
+	if stackTrace {
+		for fr, i := w.top, 0; fr != nil && i < 12; fr, i = fr.caller, i+1 {
+			msg += " <- " + fr.fn.String()
+		}
+	}
 	panic(&pathEnd{Status: "unsupported", Msg: msg + w.where()})
 }
+
+var stackTrace = os.Getenv("GOSX_STACK") != ""
 
 func (w *W) where() string {
 	if w.curPos.IsValid() {
@@ -198,6 +205,8 @@ func (w *W) assertRaw(t *smt.Term) {
 
 // Branch decides a symbolic condition on this path, forking if both outcomes
 // are feasible.
+var branchTrace = os.Getenv("GOSX_BRANCHTRACE") != ""
+
 func (w *W) Branch(cond *smt.Term) bool {
 	if cond.IsTrue() {
 		return true
@@ -236,6 +245,9 @@ func (w *W) Branch(cond *smt.Term) bool {
 			return cond
 		}
 		return w.C.Not(cond)
+	}
+	if branchTrace {
+		fmt.Fprintf(os.Stderr, "[branch] %s\n", w.where())
 	}
 	if mv, ok := w.evalModel(cond); ok {
 		// the current model already witnesses side mv; only the other needs a query
